@@ -1,8 +1,8 @@
 (* C25 — Data change filters report exactly the changes they describe.  Statements only. *)
-From Coq Require Import List ZArith Bool.
+From Coq Require Import List ZArith Bool Reals.
 From Flocq Require Import IEEE754.Binary IEEE754.Bits.
 Import ListNotations.
-From OV Require Import C25.Model C25.Proofs.
+From OV Require Import C25.Model C25.Proofs C25.Reals.
 Open Scope Z_scope.
 
 (* [differs f s l]: sample s differs from the last reported sample l in the way filter f selects
@@ -62,3 +62,22 @@ Print Assumptions C25_legacy_inf_refuted.
 Theorem C25_legacy_text_refuted : exists c, valid c /\ known c = 0 /\ oracle c (legacy_run_text c) = false.
 Proof. exact legacy_text_refuted. Qed.
 Print Assumptions C25_legacy_text_refuted.
+
+(* The absolute deadband in the reals, for finite values and deadband: the code treats a value as
+   unchanged exactly when the difference of the real values, rounded to binary64 (round to nearest
+   even), is within the deadband ... *)
+Theorem C25_deadband_real : forall x y d : f64,
+  ffinite x = true -> ffinite y = true -> ffinite d = true ->
+  (abs_compare x y d = true <-> (Rabs (rnd64 (B2R 53 1024 x - B2R 53 1024 y)) <= B2R 53 1024 d)%R).
+Proof.
+  intros x y d Hx Hy Hd. split; [apply real_of_abs_compare | apply abs_compare_of_real]; assumption.
+Qed.
+Print Assumptions C25_deadband_real.
+
+(* ... so a report under an absolute deadband always means the real value moved by more than the
+   deadband (no rounding artefact can cause a report). *)
+Theorem C25_report_means_real_move : forall x y d : f64,
+  ffinite x = true -> ffinite y = true -> ffinite d = true ->
+  abs_compare x y d = false -> (B2R 53 1024 d < Rabs (B2R 53 1024 x - B2R 53 1024 y))%R.
+Proof. exact report_means_real_move. Qed.
+Print Assumptions C25_report_means_real_move.
